@@ -555,7 +555,7 @@ func (r *c02Runs) report(v *verifRun, parent string, x *c02Node, memo map[string
 			return bad
 		}
 		bad := problem(y, false) != ""
-		if len(memo) < 200000 {
+		if len(memo) < 50000 {
 			memo[k] = bad
 		}
 		return bad
@@ -827,7 +827,7 @@ func c02RandLen(rng *rand.Rand) int {
 func TestVerifC02(t *testing.T) {
 	const parent6 = "ACCTGA" // no span of two or more bases equals the reverse complement of any span (checked below)
 	// the distinct-case maps are large and long-lived; collect less often
-	defer debug.SetGCPercent(debug.SetGCPercent(300))
+	defer debug.SetGCPercent(debug.SetGCPercent(200))
 	capFull, capCases := 20000, 20000 // bounds on alphabet^leaves: for the complete alphabet, for the others
 	nRandom := 40000
 	if verifThorough() {
